@@ -13,6 +13,6 @@ func raceEnable()  {}
 // RaceErrors is always 0 without -race.
 func RaceErrors() int { return 0 }
 
-func raceAcquire(p unsafe.Pointer) {}
-func raceRelease(p unsafe.Pointer) {}
+func raceAcquire(p unsafe.Pointer)      {}
+func raceRelease(p unsafe.Pointer)      {}
 func raceReleaseMerge(p unsafe.Pointer) {}
